@@ -750,13 +750,18 @@ class Exec:
 # known findings: signatures computed from the failing execution
 
 
-def signature(ex: Exec, prev: dict, st: dict, discs: list) -> str | None:
+def signature(ex: Exec, prev: dict, st: dict, discs: list, label: str = '') -> str | None:
     """A signature only if EVERY discrepancy of the step is explained by it."""
     if not discs:
         return None
     if ex.maildir:
         last = st['last']
-        # COPY on maildir writes a metadata-only message: the copy's content is blank
+        # MOVE into the selected mailbox itself: the session never answers again
+        # (whatever the model allows for this step: the command is not answered at all)
+        if label.startswith('Move('):
+            dest = tlc.parse_label(label)[1][2]
+            if dest == prev['sel'] and ex.last_raw == b'' and not ex.w.conns['a'].done:
+                return 'MaildirMoveToSelfHangs'        # COPY on maildir writes a metadata-only message: the copy's content is blank
         copied = set(ex.copied)
         if last['cmd'] in ('copy', 'move') and last['cond'] == 'OK':
             copied |= {(last['dest'], d) for s_, d in last['pairs']
@@ -764,10 +769,6 @@ def signature(ex: Exec, prev: dict, st: dict, discs: list) -> str | None:
         if all(d[0] in ('content', 'fetchbody') and len(d) > 2 and d[2]['blank']
                and (d[2]['box'], d[2]['uid']) in copied for d in discs):
             return 'MaildirCopyLosesContent'
-        # MOVE into the selected mailbox itself: the session never answers again
-        if last['cmd'] == 'move' and last['dest'] == prev['sel'] and ex.last_raw == b'' \
-                and not ex.w.conns['a'].done:
-            return 'MaildirMoveToSelfHangs'
         # MOVE out of a folder and back: the source's uidlist kept the record, the
         # file name is the same, so the old UID is alive again next to the new one
         moved_in = dict(ex.moved_in)
@@ -809,7 +810,7 @@ def make_report(ex: Exec, labels: list, cmds: list, prev: dict, cands: list,
     order = sorted(range(len(cands)),
                    key=lambda i: (any(d[0] == 'cond' for d in results[i]), len(results[i])))
     st, discs = cands[order[0]], results[order[0]]
-    sig = signature(ex, prev, st, discs)
+    sig = signature(ex, prev, st, discs, labels[-1])
     latitude = False
     if sig is None and phase == 'sim' and st['last']['choice'] and st['last']['cond'] == 'OK':
         # the simulated sub-model fixed the lenient resolution of a latitude point at
@@ -1182,23 +1183,28 @@ def main(tier: str) -> int:
                               'kw_not_permitted': {'nodes': len(g0.nodes), 'edges': g0.n_edges},
                               'kw_permitted': {'nodes': len(g1.nodes), 'edges': g1.n_edges}}
         if quick:
-            plan = [('dict', g0, n0, None, 30), ('maildir++', g0, n0, 500, 12),
-                    ('maildirfs', g0, n0, 150, 6), ('maildir++kw', g1, n1, 300, 8)]
+            plan = [('dict', g0, n0, None, 30), ('maildir++', g0, n0, 400, 10),
+                    ('maildirfs', g0, n0, 120, 5), ('maildir++kw', g1, n1, 250, 7)]
         else:
-            plan = [('dict', g0, n0, None, 240), ('maildir++', g0, n0, None, 330),
-                    ('maildirfs', g0, n0, 4000, 80), ('maildir++kw', g1, n1, 9000, 160),
-                    ('maildirfskw', g1, n1, 2000, 50)]
+            plan = [('dict', g0, n0, None, 240), ('maildir++', g0, n0, 15000, 240),
+                    ('maildirfs', g0, n0, 3000, 60), ('maildir++kw', g1, n1, 6000, 120),
+                    ('maildirfskw', g1, n1, 1500, 40)]
+        only = [b for b in os.environ.get('VERIF_C10_BACKENDS', '').split(',') if b]
+        if only:        # debugging aid: restrict the backends
+            plan = [p for p in plan if p[0] in only]
         for bname, g, nodes, limit, budget in plan:
             drv.graph_phase(bname, g, nodes, limit, budget)
         run.notes['graph_wall_s'] = round(time.time() - t_all, 1)
         # 3: random part, one TLC simulation per (KwPermitted, exhibited policy)
         if quick:
-            splan = [('dict', False, 400, 12), ('maildir++', False, 120, 6),
-                     ('maildirfs', False, 60, 4), ('maildir++kw', True, 120, 6)]
+            splan = [('dict', False, 300, 12), ('maildir++', False, 100, 6),
+                     ('maildirfs', False, 50, 4), ('maildir++kw', True, 100, 6)]
         else:
-            splan = [('dict', False, 5000, 120), ('maildir++', False, 2000, 100),
-                     ('maildirfs', False, 800, 50), ('maildir++kw', True, 2000, 100),
-                     ('maildirfskw', True, 600, 40)]
+            splan = [('dict', False, 4000, 100), ('maildir++', False, 1500, 80),
+                     ('maildirfs', False, 600, 40), ('maildir++kw', True, 1500, 80),
+                     ('maildirfskw', True, 400, 30)]
+        if only:
+            splan = [p for p in splan if p[0] in only]
         # one TLC simulation per (KwPermitted, exhibited policy), run side by side
         need: dict = {}
         for bname, kw, num, budget in splan:
